@@ -52,6 +52,17 @@ Definition dispatch_c13 (tag : N) (a : list (list N)) : list (list N) :=
                     else bytes_eqb (ip_payload p) (arg a 1)))]]
   (* round trip as observed: what the decoder returned for an assembled packet (second list; empty = refused) equals what was put in *)
   | 1314 => [[b2n (l_eqb (arg a 0) (arg a 1) && bytes_eqb (arg a 2) (arg a 3))]]
+  (* strictness as observed (the clause "reject any packet whose length fields disagree with the bytes supplied and never expose bytes
+     outside it", read off the decoder's answer; the right-hand sides are those of C13_udp_strict / C13_ipv4_strict):
+     input; [accepted; ...]; payload handed out *)
+  | 1315 => let b := arg a 0 in
+            [[b2n ((argn a 1 0 =? 0) ||
+                   (8 <=? len b) && (be16 (nth 4 b 0) (nth 5 b 0) =? len b) && bytes_eqb (arg a 2) (skipn 8 b) &&
+                   (argn a 1 1 =? be16 (nth 0 b 0) (nth 1 b 0)) && (argn a 1 2 =? be16 (nth 2 b 0) (nth 3 b 0)))]]
+  | 1316 => let b := arg a 0 in let ihl := nth 0 b 0 mod 16 * 4 in
+            [[b2n ((argn a 1 0 =? 0) ||
+                   (nth 0 b 0 / 16 =? 4) && (20 <=? ihl) && (ihl <=? len b) && (be16 (nth 2 b 0) (nth 3 b 0) =? len b) &&
+                   bytes_eqb (arg a 2) (skipn (N.to_nat ihl) b))]]
   | _ => [[99]]
   end.
 
